@@ -27,7 +27,7 @@ type Loc struct {
 	Elem   types.Type // type of the designated object
 	Parent *Loc       // LField, LArrIdx
 	Field  int        // LField
-	Arr    string     // LElem: backing array ref term
+	Arr    string     // LElem: slice term whose element Idx is designated
 	Idx    string     // LElem / LArrIdx: index term
 	Cell   int        // LCell id
 	Global string     // LGlobal heap name
@@ -64,6 +64,8 @@ type Val struct {
 	Tup   []Val
 	It    *RangeIter
 	Guard *GuardInfo // value was loaded from a guarded field (maps, slices)
+	Hi    int        // known bits: value < 2^Hi (0 = unknown)
+	Lo    int        // known bits: value is a multiple of 2^Lo
 }
 
 // MTy: mathematical (spec-only) types
